@@ -361,9 +361,10 @@ impl Scope {
         let mut crossed_function_border = false;
 
         loop {
+            // NOTE: The nearest enclosing function scope can belong to another arrow function,
+            //       which has no `this` of its own, so every enclosing function scope is marked.
             if crossed_function_border && current.is_function() {
                 current.inner.this_escaped.set(true);
-                return;
             }
             if let Some(outer) = &current.inner.outer {
                 if current.is_function() {
